@@ -41,6 +41,8 @@ Cfg == [ names |-> Names, edges |-> BEdges,
 InDomain ==
   /\ (HasBaseTokens => G!InGrammarM(T.base) /\ G!AnnInDom(T.base) /\ G!Fault(BaseD) = "" /\ G!AnnErr(BaseD) = "")
   /\ \A i \in DOMAIN T.frags : F!InGrammarF(T.frags[i][2], T.fragcoarse)
+  \* the fragment blocks of the other levels of the same string (all of them are read when the resolver is built)
+  /\ ("otherfrags" \in DOMAIN T => \A i \in DOMAIN T.otherfrags : F!InGrammarF(T.otherfrags[i][2], T.otherfrags[i][3]))
   /\ \A i \in DOMAIN T.frags : \A j \in DOMAIN T.frags[i][2] :
         T.frags[i][2][j].k = "A" => BindError(T.frags[i][2][j].a, AtomDialect) = "" /\ AnnInDomain(T.frags[i][2][j].a, AtomDialect)
 
